@@ -179,22 +179,33 @@ func c09Sections() []c09Section {
 			kw, name = "submodule", "s"
 			secs[0] = []*yang.Stmt{yang.S("belongs-to", "m", yang.S("prefix", "m"))}
 		}
-		for _, perm := range permutations(5) {
-			root := yang.S(kw, name)
-			sorted := true
-			for i, s := range perm {
-				if i > 0 && perm[i-1] > s {
-					sorted = false
+		// withExt: a prefixed extension statement (accepted anywhere, belonging to no section) stands
+		// between any two sections; it must not change the verdict on the order
+		for _, withExt := range []bool{false, true} {
+			for _, perm := range permutations(5) {
+				root := yang.S(kw, name)
+				sorted := true
+				for i, s := range perm {
+					if i > 0 && perm[i-1] > s {
+						sorted = false
+					}
+					if withExt && i > 0 {
+						root.Add(yang.S("ext:note", fmt.Sprintf("between %d and %d", perm[i-1], s)))
+					}
+					for _, st := range secs[s] {
+						root.Add(st.Clone())
+					}
 				}
-				for _, st := range secs[s] {
-					root.Add(st.Clone())
+				exp := "reject"
+				if sorted {
+					exp = "accept"
 				}
+				what := fmt.Sprintf("%s sections in order %v", kw, perm)
+				if withExt {
+					what += " with extension statements in between"
+				}
+				out = append(out, c09Section{yang.Render(root, nil), exp, what})
 			}
-			exp := "reject"
-			if sorted {
-				exp = "accept"
-			}
-			out = append(out, c09Section{yang.Render(root, nil), exp, fmt.Sprintf("%s sections in order %v", kw, perm)})
 		}
 		// a second statement of an earlier section after a later one (interleavings)
 		extra := [][2]*yang.Stmt{
